@@ -329,6 +329,27 @@ def table_task(task):
                         case.pop("archived_topology", None)
                         if tie:
                             expected_key = None  # two topologies share the highest count
+                    if c % 3 == 1:
+                        # the command run a second time over its own earlier output files: same content again
+                        if cmd == "map":
+                            first = open(tab, "rb").read() + open(nwk, "rb").read()
+                            write_map_results(path, tab, nwk)
+                            again = open(tab, "rb").read() + open(nwk, "rb").read()
+                        elif cmd == "consensus":
+                            first = open(tab, "rb").read() + open(nwk, "rb").read()
+                            write_consensus_results(path, tab, nwk, consensus_threshold=0.5,
+                                                    weight_type="counts" if c % 8 < 4 or not tie else "joint-likelihood")
+                            again = open(tab, "rb").read() + open(nwk, "rb").read()
+                        else:
+                            first = (open(os.path.join(tmp, "rep.tsv"), "rb").read(), files)
+                            write_topology_report(path, os.path.join(tmp, "rep.tsv"), topologies_archive=arc, top_trees=50)
+                            with tarfile.open(arc, "r:gz") as tf:
+                                files2 = {m.name.split("/")[1]: tf.extractfile(m).read().decode() for m in tf.getmembers()}
+                            again = (open(os.path.join(tmp, "rep.tsv"), "rb").read(), files2)
+                        part.count("commands_repeated_over_their_own_output")
+                        if first != again:
+                            part.violation("%s command writes different results when its output files already exist "
+                                           "(second run over its own earlier output)" % cmd, dict(case))
                     part.count("tables_checked")
                     part.count("tables_%s" % cmd)
                     ccf_ref = None
